@@ -80,6 +80,15 @@ def key_of(check, ev, ctx, progs):
 
 
 def validate(prop, p, report):
+    # a program the specification accepts must build, whichever reply property is being judged
+    for pid, msg in sorted(p.get("failed", {}).items()):
+        q = next((x for x in p["progs"] if x["id"] == pid), {})
+        if not q.get("valid", True):
+            continue
+        first = msg.strip().splitlines()[0] if msg.strip() else ""
+        report.violation("reply-program-does-not-build|%s|%s" % (q.get("family"), first[:70]),
+                         "%s: reply program %s (family %s), whose table the specification accepts, does not build: %s" % (prop, pid, q.get("family"), first),
+                         {"cargo.txt": msg, "program.rs": gen_replies.program_src(q) if q else ""})
     v = tlc_trace("Trace_Reply", "Trace_Reply.cfg", p["trace"], env={"VERIF_PROGS": p["progs_path"], "VERIF_FOCUS": prop}, timeout=3000)
     events = None
     progs = {x["id"]: x for x in p["progs"]}
